@@ -18,7 +18,6 @@ def fmtWrapped : Wrapped → String
 def fmtSolver : Solver → String
   | .sparse => "sparse" | .triLower => "tri" | .dense => "dense"
 
-def absQ (q : Rat) : Rat := if q < 0 then -q else q
 
 /-- max-abs difference of two matrices of the same shape (`none` on shape mismatch) -/
 def maxDiff (A B : Mat) : Option Rat :=
